@@ -154,8 +154,22 @@ func e11RootCase(seed uint64, L, mask int, n int) Case {
 			}
 		}
 		g.barrier()
-		// publish L events, at most 25 in flight for the healthy readers
+		// publish L events, at most 25 in flight for the healthy readers.  In every other
+		// case one stalled consumer is CLOSED by its owner in the middle of the overrun
+		// (its subscription is busy dropping events while the publisher keeps handing it
+		// new ones): the producer and the siblings must not notice.
+		closeMidAt := -1
+		var closedMid *node
+		if (n+mask)%2 == 1 && len(stalled) > 0 && L > kcache.EventBufsiz+20 && stalled[0] != stalledFiltered {
+			closeMidAt = kcache.EventBufsiz + 3 + rng.Intn(12)
+		}
 		for i := 0; i < L; i++ {
+			if i == closeMidAt {
+				closedMid = stalled[0]
+				stalled = stalled[1:]
+				go closedMid.closer()
+				r.Add("stalled-consumers-closed-mid-overrun", 1)
+			}
 			okc := make(chan error, 1)
 			if !within(func() { _, err := g.mutate(rng, u); okc <- err }) {
 				r.V("C10", "producer-blocked", "publishing event %d of %d did not complete within %v of virtual time while consumers were stalled (mask %06b)\n%s", i, L, virtBound, mask, kit.CensusText(kit.Census(), 10))
@@ -187,6 +201,10 @@ func e11RootCase(seed uint64, L, mask int, n int) Case {
 			}
 		}
 		g.barrier()
+		if closedMid != nil && !waitCh(closedMid.done, virtBound) {
+			r.V("C10", "close-of-stalled-consumer-hangs", "%s (stalled, buffer overrun) was closed by its owner while events kept coming: not done %v later\n%s", closedMid, virtBound, kit.CensusText(kit.Census(), 10))
+			return
+		}
 		if slow != nil {
 			time.Sleep(time.Duration(L+2) * time.Second)
 			g.barrier()
